@@ -105,7 +105,7 @@ Proof.
     unfold wm_bk_fwrite in H. cbn [wm_fpos wm_fend wm_offset wm_hdr wm_last_pl wm_disk wm_rlog wm_fault] in H.
     set (n1 := N.of_nat (length (firstn (N.to_nat (fm_payload_length h2)) p))) in H.
     set (n2 := N.of_nat (length (wm_footer (fm_payload_length h2) (crc32c (firstn (N.to_nat (fm_payload_length h2)) p))))) in H.
-    match type of H with (let r3 := (if ?c then _ else _) in _) = _ => destruct c end;
+    match type of H with context [if ?c then wm_set_last_pl _ _ else _] => destruct c end;
       cbv zeta in H; unfold wm_invalidate, wm_set_offset, wm_set_hdr, wm_set_last_pl in H;
       cbn [wm_fpos wm_fend wm_offset wm_hdr wm_last_pl wm_disk wm_rlog wm_fault] in H;
       inversion H; subst r1 h1; clear H;
@@ -149,7 +149,7 @@ Proof.
   split; [|split; [|split]]; try reflexivity.
   - unfold sf_raw_ok. cbn [wm_fpos wm_fend wm_offset wm_hdr wm_last_pl wm_disk wm_rlog wm_fault].
     split; [reflexivity|]. split; [reflexivity|]. split; [lia|]. split; [exact Hnz|]. split.
-    + intros o' h' [Heq|Hi]; [inversion Heq; subst; split; [exact E0 | exact Hho] | now apply Hlt].
+    + intros o' h' [Heq|Hi]; [inversion Heq; subst; split; [exact E0 | exact Hho] | exact (Hlt _ _ Hi)].
     + intros o ha hb [Ha|Ha] [Hb|Hb].
       * inversion Ha; inversion Hb; subst. reflexivity.
       * inversion Ha; subst. rewrite Hpl2. eapply Hcons; eassumption.
@@ -159,35 +159,63 @@ Proof.
 Qed.
 
 (* ---------------------------------------------------------------- the head-table rewrite of jls_track_wr_head *)
+Lemma sf_seek_eq : forall fpos fend off hdr lpl disk log flt o, o <> 0 ->
+  wm_raw_chunk_seek (wm_mk_raw fpos fend off hdr lpl disk log flt) o =
+  wm_mk_raw o fend o (wm_hdr_set_tag hdr JLS_TAG_INVALID) lpl disk log flt.
+Proof.
+  intros. unfold wm_raw_chunk_seek. apply N.eqb_neq in H. rewrite H. reflexivity.
+Qed.
+
+Lemma sf_wr_payload_reread_eq : forall fend o hdr lpl disk log h' payload n,
+  fm_tag hdr = JLS_TAG_INVALID -> o < fend -> wm_disk_get disk o = Some h' -> n <> 0 ->
+  fm_payload_length h' <= N.of_nat (length payload) ->
+  exists fpos' fend' lpl' log',
+    wm_raw_wr_payload (wm_mk_raw o fend o hdr lpl disk log false) n payload =
+    wm_mk_raw fpos' fend' o h' lpl' disk log' false /\ fpos' <= fend' /\ fend <= fend'.
+Proof.
+  intros fend o hdr lpl disk log h' payload n Htag Hlt Hget Hn Hlen.
+  unfold wm_raw_wr_payload, wm_raw_rd_header, wm_hdr_valid, wm_mk_raw.
+  cbn [wm_fpos wm_fend wm_offset wm_hdr wm_last_pl wm_disk wm_rlog wm_fault].
+  rewrite Htag. cbn [N.eqb negb].
+  assert (Hfe : (fend <=? o) = false) by (apply N.leb_gt; exact Hlt). rewrite Hfe, (N.eqb_refl o).
+  unfold wm_set_offset, wm_set_fpos, wm_set_hdr.
+  cbn [wm_fpos wm_fend wm_offset wm_hdr wm_last_pl wm_disk wm_rlog wm_fault]. rewrite Hget.
+  cbn [wm_fpos wm_fend wm_offset wm_hdr wm_last_pl wm_disk wm_rlog wm_fault].
+  apply N.eqb_neq in Hn. rewrite Hn.
+  assert (Hno : (N.of_nat (length payload) <? fm_payload_length h') = false) by (apply N.ltb_ge; exact Hlen). rewrite Hno.
+  unfold wm_bk_fwrite. cbn [wm_fpos wm_fend wm_offset wm_hdr wm_last_pl wm_disk wm_rlog wm_fault].
+  match goal with |- context [if ?c then wm_set_last_pl _ _ else _] => destruct c end;
+    unfold wm_set_last_pl; cbn [wm_fpos wm_fend wm_offset wm_hdr wm_last_pl wm_disk wm_rlog wm_fault];
+    do 4 eexists; (split; [reflexivity|]); lia.
+Qed.
+
+Lemma sf_raw_ok_mk : forall r, sf_raw_ok r ->
+  r = wm_mk_raw (wm_fpos r) (wm_fend r) (wm_fpos r) (wm_hdr r) (wm_last_pl r) (wm_disk r) (wm_rlog r) false.
+Proof.
+  intros r (Hf & Ho & _). destruct r as [fpos fend off hdr lpl disk log flt].
+  cbn [wm_fault wm_offset wm_fpos] in Hf, Ho. subst. reflexivity.
+Qed.
+
 Lemma sf_tbl_rewrite : forall r ho hh payload,
   sf_raw_ok r -> In (ho, hh) (wm_disk r) -> sf_plen hh = SIZEOF_track_head -> SIZEOF_track_head <= N.of_nat (length payload) ->
   let r' := wm_raw_chunk_seek (wm_raw_wr_payload (wm_raw_chunk_seek r ho) SIZEOF_track_head payload) (wm_raw_chunk_tell r) in
   sf_raw_ok r' /\ wm_disk r' = wm_disk r /\ wm_offset r' = wm_offset r.
 Proof.
-  intros r ho hh payload (Hflt & Hoff & Hpe & Hnz & Hlt & Hcons) Hin Hpl Hlen.
+  intros r ho hh payload Hok Hin Hpl Hlen.
+  pose proof (sf_raw_ok_mk r Hok) as Hr.
+  destruct Hok as (Hflt & Hoff & Hpe & Hnz & Hlt & Hcons).
   destruct (Hlt _ _ Hin) as [Hho0 Hho].
   destruct (sf_disk_get_in _ _ _ Hin) as (h' & Hget & Hin').
-  assert (Hpl' : fm_payload_length h' = 128) by (rewrite <- Hpl; symmetry; eapply Hcons; eassumption).
-  destruct r as [fpos fend off hdr lpl disk log flt].
-  cbn [wm_fault wm_offset wm_fpos wm_fend wm_disk] in *. subst flt off.
-  unfold wm_raw_chunk_tell, wm_raw_chunk_seek, wm_invalidate, wm_bk_fseek, wm_set_hdr, wm_set_fpos, wm_set_offset.
-  cbn [wm_fpos wm_fend wm_offset wm_hdr wm_last_pl wm_disk wm_rlog wm_fault].
-  destruct (ho =? 0) eqn:E1; [apply N.eqb_eq in E1; congruence|].
-  unfold wm_raw_wr_payload, wm_raw_rd_header, wm_hdr_valid.
-  cbn [wm_fpos wm_fend wm_offset wm_hdr wm_last_pl wm_disk wm_rlog wm_fault fm_tag wm_hdr_set_tag].
-  rewrite N.eqb_refl. cbn [negb].
-  assert (Hfe : (fend <=? ho) = false) by (apply N.leb_gt; lia). rewrite Hfe.
-  rewrite N.eqb_refl. unfold wm_set_offset, wm_set_fpos, wm_set_hdr.
-  cbn [wm_fpos wm_fend wm_offset wm_hdr wm_last_pl wm_disk wm_rlog wm_fault]. rewrite Hget.
-  cbn [wm_fpos wm_fend wm_offset wm_hdr wm_last_pl wm_disk wm_rlog wm_fault].
-  change (SIZEOF_track_head =? 0) with false. cbv iota.
-  rewrite Hpl'.
-  assert (Hno : (N.of_nat (length payload) <? 128) = false) by (apply N.ltb_ge; exact Hlen). rewrite Hno.
-  unfold wm_bk_fwrite. cbn [wm_fpos wm_fend wm_offset wm_hdr wm_last_pl wm_disk wm_rlog wm_fault].
-  destruct (fpos =? 0) eqn:E2; [apply N.eqb_eq in E2; congruence|].
-  match goal with |- context [if ?c then wm_set_last_pl _ _ else _] => destruct c end;
-    unfold wm_set_last_pl; cbn [wm_fpos wm_fend wm_offset wm_hdr wm_last_pl wm_disk wm_rlog wm_fault];
-    (split; [|split; reflexivity]);
-    unfold sf_raw_ok; cbn [wm_fpos wm_fend wm_offset wm_hdr wm_last_pl wm_disk wm_rlog wm_fault];
-    (split; [reflexivity|]; split; [reflexivity|]; split; [lia|]; split; [exact Hnz|]; split; assumption).
+  assert (Hpl' : fm_payload_length h' = 128).
+  { transitivity (sf_plen hh); [eapply Hcons; eassumption | exact Hpl]. }
+  unfold wm_raw_chunk_tell. rewrite Hoff in *.
+  set (fpos := wm_fpos r) in *. set (fend := wm_fend r) in *. set (disk := wm_disk r) in *.
+  cbv zeta. rewrite Hr at 1. rewrite sf_seek_eq by exact Hho0.
+  destruct (sf_wr_payload_reread_eq fend ho (wm_hdr_set_tag (wm_hdr r) JLS_TAG_INVALID) (wm_last_pl r) disk (wm_rlog r) h' payload SIZEOF_track_head)
+    as (fpos' & fend' & lpl' & log' & Heq & Hle1 & Hle2); try assumption; try reflexivity; try lia; try discriminate.
+  { rewrite Hpl'. exact Hlen. }
+  rewrite Heq, sf_seek_eq by exact Hnz.
+  split; [|split; reflexivity].
+  unfold sf_raw_ok, wm_mk_raw. cbn [wm_fpos wm_fend wm_offset wm_hdr wm_last_pl wm_disk wm_rlog wm_fault].
+  split; [reflexivity|]. split; [reflexivity|]. split; [lia|]. split; [exact Hnz|]. split; assumption.
 Qed.
